@@ -157,10 +157,10 @@ pub fn interop(ctx: &Ctx, rep: &mut Report) {
     // own keys: regression seeds (|G| > 127 on the pinned tree) first
     let mut s512: Vec<[u8; 32]> = super::c05::REGRESSION_512.iter().map(|&i| counter_seed(i)).collect();
     let mut s1024: Vec<[u8; 32]> = super::c05::REGRESSION_1024.iter().map(|&i| counter_seed(i)).collect();
-    for i in 0..ctx.sz(60, 1500) {
+    for i in 0..ctx.sz(60, 4000) {
         s512.push(seed32(ctx.seed, &format!("c16-512-{}", i)));
     }
-    for i in 0..ctx.sz(12, 300) {
+    for i in 0..ctx.sz(12, 800) {
         s1024.push(seed32(ctx.seed, &format!("c16-1024-{}", i)));
     }
     let r = par_for(s1024.len(), ncpu(), |i, rep| own_key::<F1024>(s1024[i], nm, ctx.seed, rep));
@@ -172,9 +172,9 @@ pub fn interop(ctx: &Ctx, rep: &mut Report) {
         }
     });
     rep.merge(r);
-    let r = par_for(ctx.sz(64, 600), ncpu(), |i, rep| reference_key::<F512>(i, nm, ctx.seed, rep));
+    let r = par_for(ctx.sz(64, 2000), ncpu(), |i, rep| reference_key::<F512>(i, nm, ctx.seed, rep));
     rep.merge(r);
-    let r = par_for(ctx.sz(24, 150), ncpu(), |i, rep| {
+    let r = par_for(ctx.sz(24, 500), ncpu(), |i, rep| {
         reference_key::<F1024>(i, nm, ctx.seed, rep);
         if i == 0 {
             rep.sample(json!({"direction": "PQClean key -> falcon-rust", "variant": "falcon1024", "per_key": "pk/sk import and byte-identical re-encoding, pk derived from imported sk, signatures in both directions"}));
